@@ -35,6 +35,10 @@ def cases(draw, tier):
                     durs.append(abs(p) + draw(st.sampled_from([0.25, 1, 2])))
                 else:
                     durs.append(draw(st.sampled_from([0.25, 0.5, 1, 3])) if op == 'delay' else (p / 2 if p > 0 else None))
+        if not floaty and op == 'interval' and p > 0 and draw(st.integers(0, 3)) == 0:
+            # body runs whose length is no binary fraction: the grid (start + k * period, exact here) must not notice
+            durs = [draw(st.sampled_from([p * 0.1, p * 0.3, p * 0.6, p * 0.9, None, 0])) for _ in durs]
+            p = draw(st.sampled_from([p, 5.5, 4.5])) if all(d is None or d < 4 for d in durs) else p
         step = {'op': op, 'p': p, 'durs': durs}
         if not floaty and draw(st.integers(0, 4)) == 0:
             step['prepare'] = draw(st.sampled_from([0.25, 0.5, 1, 3]))    # ticker object created now, iterated later
@@ -81,7 +85,7 @@ def cases(draw, tier):
     spin = {'name': 'sp', 'steps': [{'op': 'sleep', 'd': draw(st.sampled_from([0, 0, 0.5, 1]))}] +
             [{'op': 'instant'} for _ in range(draw(st.integers(3, 10)))]}
     roots = [{'name': 'r0', 'steps': [{'op': 'scope', 'name': 'S', 'children': kids, 'body': [], 'catch': True}]}, spin]
-    start = draw(st.sampled_from([0, 0, -1, -2, -3.5, 1.5, 7])) if not floaty else \
+    start = draw(st.sampled_from([0, 0, -1, -2, -3.5, 1.5, 7, -10, -8])) if not floaty else \
         draw(st.floats(-1000, 1000, allow_nan=False))
     if not floaty and draw(st.integers(0, 7)) == 0:
         # extreme but exactly representable magnitudes: a late clock and/or a tiny period
